@@ -690,6 +690,181 @@ def shrink_rows(fn, vals):
     return cur, base
 
 
+def leaf_dims(spec):
+    used = {d["cond"] for d in spec["dims"] if d["cond"] is not None}
+    return [i for i in range(len(spec["dims"])) if i not in used]
+
+
+def o_edge_rows(spec, base):
+    """points on and outside the edge of the support: a variable nothing is conditional on set to 0, a negative value, a
+    huge and a tiny value (float and integer zero): the density is finite, >= 0 and the product of the factors (0 outside the
+    support); inf / nan are rejected with ValueError"""
+    model = M.build_model(spec)
+    for i in leaf_dims(spec):
+        for v in (0.0, -1.5, 1e30, 1e300, 1e-300):
+            row = list(base)
+            row[i] = v
+            got = run_method(model, "pdf", [row])
+            want = float(M.spec_pdf(spec, [row])[0])
+            if math.isnan(want):
+                continue          # scipy's own density saturates to nan there (e.g. inf * 0 at 1e300): not judged
+            # (a density with shape < 1 is +inf AT the lower end of its support: that is the product, not a defect)
+            if isinstance(got, dict) or not (got[0] >= 0) or (not math.isnan(want) and not vlib.close(got[0], want, rel=TOL, abs_=1e-290)):
+                return ({"clause": "edge-of-support", "method": "pdf"},
+                        "pdf(%r) = %r at the edge / outside the support (independent product: %r)" % (row, got, want))
+        irow = [int(max(1, round(x))) for x in base]
+        irow[i] = 0
+        got = run_method(model, "pdf", irow)
+        want = float(M.spec_pdf(spec, [[float(x) for x in irow]])[0])
+        if isinstance(got, dict) or not (got[0] >= 0) or (not math.isnan(want) and not vlib.close(got[0], want, rel=TOL, abs_=1e-290)):
+            return ({"clause": "edge-of-support", "method": "pdf", "dtype": "int"}, "pdf(%r) = %r, independent product %r" % (irow, got, want))
+    for bad in (float("inf"), float("nan")):
+        row = list(base)
+        row[-1] = bad
+        for meth in ("pdf", "cdf"):
+            got = run_method(model, meth, [row])
+            if not (isinstance(got, dict) and got["err"] == "ValueError"):
+                return ({"clause": "non-finite-input", "method": meth}, "%s(%r) returns %r instead of rejecting the non-finite point" % (meth, row, got))
+    return None
+
+
+def o_edge_integrals_2d(spec, base, model=None):
+    """2-D, real nquad: the cdf and the marginal cdf / pdf vanish at and below the lower end of the support"""
+    model = model or M.build_model(spec)
+    x0, x1 = base
+    for meth, arg, dim in [("cdf", [x0, 0.0], None), ("cdf", [0.0, x1], None), ("cdf", [x0, -2.0], None),
+                           ("marginal_cdf", np.array([0.0, -1.0]), 1), ("marginal_pdf", np.array([-1.0]), 1)]:
+        got = run_method(model, meth, arg, dim)
+        if slow(got):
+            return "slow"
+        if isinstance(got, dict) or any(abs(g) > 1e-9 for g in got):
+            return ({"clause": "edge-of-support", "method": meth},
+                    "%s(%r%s) = %r, expected 0 at / below the lower end of the support" % (
+                        meth, arg if isinstance(arg, list) else arg.tolist(), "" if dim is None else ", %d" % dim, got))
+    return None
+
+
+def mc_size_py(ps, pf):
+    p_small = min(min(ps), 1 - max(ps))
+    return max(int((1 / p_small) * (100 * pf)), 100000)
+
+
+def o_icdf_seed(spec, dim, seed, ps=(0.1, 0.9), pf=1):
+    """marginal_icdf(p, dim, precision_factor, random_state=seed) of a conditional variable: reproducible bit for bit by the
+    same int seed and by identically seeded Generators, independent of numpy's global state, different for another seed,
+    and exactly the numpy.quantile of column dim of model.draw_sample(mc_size, random_state=seed)"""
+    model = M.build_model(spec)
+    ps = list(ps)
+    np.random.seed(seed % 1000)
+    a = np.atleast_1d(model.marginal_icdf(ps, dim, pf, random_state=seed))
+    np.random.seed(seed % 1000 + 1)
+    b = np.atleast_1d(model.marginal_icdf(ps, dim, pf, random_state=seed))
+    if a.shape != (len(ps),) or not np.array_equal(a, b):
+        return ({"clause": "marginal-icdf", "kind": "seed-reproducible"},
+                "marginal_icdf(%r, %d, random_state=%d) twice: %r and %r" % (ps, dim, seed, a.tolist(), b.tolist()))
+    g1 = np.atleast_1d(model.marginal_icdf(ps, dim, pf, random_state=np.random.default_rng(seed)))
+    g2 = np.atleast_1d(model.marginal_icdf(ps, dim, pf, random_state=np.random.default_rng(seed)))
+    if not np.array_equal(g1, g2):
+        return ({"clause": "marginal-icdf", "kind": "seed-reproducible", "random_state": "Generator"},
+                "marginal_icdf(%r, %d) with two identically seeded Generators: %r and %r" % (ps, dim, g1.tolist(), g2.tolist()))
+    n = mc_size_py(ps, pf)
+    want = np.quantile(np.asarray(model.draw_sample(n, random_state=seed))[:, dim], ps)
+    if not np.array_equal(a, want):
+        return ({"clause": "marginal-icdf", "kind": "sample-quantile"},
+                "marginal_icdf(%r, %d, %r, random_state=%d) = %r is not the quantile %r of column %d of draw_sample(%d, random_state=%d)" % (
+                    ps, dim, pf, seed, a.tolist(), want.tolist(), dim, n, seed))
+    c = np.atleast_1d(model.marginal_icdf(ps, dim, pf, random_state=seed + 1))
+    if np.array_equal(a, c):
+        return ({"clause": "marginal-icdf", "kind": "seeds-differ"}, "marginal_icdf(%r, %d): seeds %d and %d give identical Monte-Carlo quantiles" % (ps, dim, seed, seed + 1))
+    return None
+
+
+def o_icdf_nd(spec, dim, seed):
+    """any dimension: the marginal_icdf of a conditional variable against the empirical cdf of an INDEPENDENT sample of the
+    spec (inverse Rosenblatt with the harness' formulas): |F_emp(x_p) - p| within the two DKW bands"""
+    model = M.build_model(spec)
+    ps = [0.1, 0.5, 0.9]
+    xs = np.atleast_1d(model.marginal_icdf(ps, dim, random_state=seed))
+    N = 400000
+    col = spec_sample(spec, N, seed + 7)[:, dim]
+    if not np.all(np.isfinite(col)) or not np.all(np.isfinite(xs)):
+        return "slow"
+    eps = math.sqrt(math.log(2 / 1e-12) / (2 * 100000)) + math.sqrt(math.log(2 / 1e-12) / (2 * N))
+    for p_, x in zip(ps, xs):
+        F = float(np.mean(col <= x))
+        if abs(F - p_) > 3 * eps:
+            return ({"clause": "marginal-icdf", "method": "marginal_icdf", "kind": "n-dim"},
+                    "marginal_icdf(%r, %d, random_state=%d) = %r, but the marginal cdf there (independent sample of %d) is %.4f (bands %.4f)" % (
+                        p_, dim, seed, float(x), N, F, eps))
+    return None
+
+
+def o_predefined(name, seed, real_seconds=0):
+    """a predefined model fitted to a benchmark data set: pdf = product of its own per-dimension densities at the same row,
+    >= 0, list / array / integer inputs; (optionally, real nquad inside a time limit) cdf and marginals against 1-D
+    quadrature over the model's own per-dimension methods; marginal_icdf round trip"""
+    model, _ = M.predefined_parts(name)
+    pts = np.asarray(model.draw_sample(5, random_state=seed), dtype=float)
+    rows = pts.tolist() + [[float(max(1, round(v))) for v in pts[0]]]
+    d0, d1 = model.distributions
+    want = [float(np.ravel(d0.pdf(np.array([r[0]])))[0] * np.ravel(d1.pdf(np.array([r[1]]), given=np.array([r[0]])))[0]) for r in rows]
+    for obj, label in ((rows, "list of rows"), (np.array(rows), "array")):
+        got = run_method(model, "pdf", obj)
+        if isinstance(got, dict) or len(got) != len(rows) or any(not (g >= 0) or not vlib.close(g, w, rel=TOL, abs_=1e-290) for g, w in zip(got, want)):
+            return ({"clause": "product", "method": "pdf", "model": "predefined"}, "get_%s: pdf(%s %r) = %r, product of the two densities %r" % (name, label, rows, got, want))
+    irow = [int(v) for v in rows[-1]]
+    for obj in (irow, np.array([irow])):
+        got = run_method(model, "pdf", obj)
+        if isinstance(got, dict) or not vlib.close(got[0], want[-1], rel=TOL, abs_=1e-290):
+            return ({"clause": "int-dtype", "method": "pdf", "model": "predefined"}, "get_%s: pdf(%r) = %r for integer input, %r for the same point as floats" % (name, irow, got, want[-1]))
+    x = float(np.median(pts[:, 1]))
+    xs = np.atleast_1d(model.marginal_icdf([0.2, 0.8], 1, random_state=seed))
+    eps = math.sqrt(math.log(2 / 1e-12) / (2 * 100000))
+    for p_, xq in zip([0.2, 0.8], xs):
+        F = model_marginal_cdf_1d(model, float(xq))
+        if abs(F - p_) > 3 * eps + 1e-3:
+            return ({"clause": "marginal-icdf", "method": "marginal_icdf", "model": "predefined"},
+                    "get_%s: marginal_icdf(%r, 1, random_state=%d) = %r whose marginal cdf is %r" % (name, p_, seed, float(xq), F))
+    if real_seconds:
+        lm = limited(M.predefined_spec(name), real_seconds)
+        got = run_method(lm, "marginal_cdf", np.array([x]), 1)
+        if slow(got):
+            return "slow"
+        w = model_marginal_cdf_1d(model, x)
+        if isinstance(got, dict) or abs(got[0] - w) > 2e-4 + 2e-3 * abs(w):
+            return ({"clause": "marginal-integral", "method": "marginal_cdf", "model": "predefined"},
+                    "get_%s: marginal_cdf([%r], 1) = %r, 1-D quadrature of f0(t) F1(x|t) gives %r" % (name, x, got, w))
+        got = run_method(lm, "cdf", [float(np.median(pts[:, 0])), x])
+        if slow(got):
+            return "slow"
+        x0 = float(np.median(pts[:, 0]))
+        lo = float(d0.icdf(1e-10))
+        w = quad1(lambda t: float(d0.pdf(t)) * float(np.ravel(d1.cdf(np.array([x]), given=np.array([t])))[0]), max(lo, 0.0), x0)
+        if isinstance(got, dict) or abs(got[0] - w) > 2e-4 + 2e-3 * abs(w):
+            return ({"clause": "cdf-integral", "method": "cdf", "model": "predefined"}, "get_%s: cdf(%r) = %r, 1-D quadrature gives %r" % (name, [x0, x], got, w))
+    return None
+
+
+def scalar_notes(spec):
+    """scalar (0-d) x for the marginal_* methods is outside the documented domain (1-dimensional): recorded, not judged"""
+    model = M.build_model(spec)
+    out = {}
+    for dim in range(len(spec["dims"])):
+        for meth in ("marginal_pdf", "marginal_cdf"):
+            if spec["dims"][dim]["cond"] is not None and meth != "marginal_icdf":
+                saved = _jm().integrate
+                _jm().integrate = NquadStub(__import__("random").Random(0), [])
+                try:
+                    r = run_method(model, meth, 1.5, dim)
+                finally:
+                    _jm().integrate = saved
+            else:
+                r = run_method(model, meth, 1.5, dim)
+            out["%s(scalar, %s dim)" % (meth, "conditional" if spec["dims"][dim]["cond"] is not None else "unconditional")] = \
+                r["err"] if isinstance(r, dict) else "returns"
+    return out
+
+
 def simple_2d_spec():
     """the smallest interesting model (used to restate a dtype finding on a minimal input)"""
     return {"dims": [{"fam": "W", "cond": None, "params": {"alpha": ["val", 2.0], "beta": ["val", 1.5], "gamma": ["val", 0.0]}},
@@ -697,7 +872,7 @@ def simple_2d_spec():
 
 
 def replay(ctx, rp):
-    spec = rp["spec"]
+    spec = rp.get("spec")
     kind = rp["oracle"]
     if kind == "product":
         o = o_product(spec, rp["rows"])
@@ -711,6 +886,16 @@ def replay(ctx, rp):
         o = o_history(rp["spec"], rp["spec_b"], rp["mode"], rp["seed"])
     elif kind == "rows":
         o = o_rows_each_alone(spec, rp["method"], rp["dim"], rp["vals"], rp["seed"])
+    elif kind == "edge_rows":
+        o = o_edge_rows(spec, rp["base"])
+    elif kind == "edge_integrals":
+        o = o_edge_integrals_2d(spec, rp["base"])
+    elif kind == "icdf_seed":
+        o = o_icdf_seed(spec, rp["dim"], rp["seed"], rp["ps"], rp["pf"])
+    elif kind == "icdf_nd":
+        o = o_icdf_nd(spec, rp["dim"], rp["seed"])
+    elif kind == "predefined":
+        o = o_predefined(rp["name"], rp["seed"], rp.get("real_seconds", 0))
     elif kind == "integrals_2d":
         o = o_integrals_2d(spec, rp["row"])
     elif kind == "mass_2d":
@@ -719,6 +904,8 @@ def replay(ctx, rp):
         o, _ = o_icdf_2d(ctx, spec, rp["seed"])
     else:
         raise KeyError(kind)
+    if o == "slow":
+        o = None
     if o:
         print("  ", o[1])
     return o is not None
@@ -749,6 +936,8 @@ def run(ctx):
     ctx.notes["input_distribution"] = {"models_by_structure": dist,
                                        "families": sorted({d["fam"] for sp in specs for d in sp["dims"]})}
 
+    import time as _t
+    marks = [("start", _t.time())]
     # ---- correspondence
     per_shard = 12
     items, metas = [], []
@@ -772,7 +961,28 @@ def run(ctx):
     body = PRELUDE + "Eval vm_compute in [%s].\n" % "; ".join(
         "reorder float 0 [%s]%%nat %s" % ("; ".join(str(k) for k in p), fl_list(args[:len(p)])) for p in perms)
     items.append(("perms", body))
+    # Monte-Carlo sample size of marginal_icdf: the n handed to draw_sample against the model's fmc_size
+    mc_model = M.build_model(simple_2d_spec())
+    mc_seen = []
+    mc_orig = mc_model.draw_sample
+    mc_model.draw_sample = lambda n, **kw: (mc_seen.append(n), mc_orig(min(n, 1000), **kw))[1]
+    mc_cases = []
+    for ps_, pf_ in [([0.5], 1), ([0.1, 0.9], 1), ([1e-3], 1), ([1e-4, 0.5], 0.5), ([1 - 1e-4], 2.0), ([0.3, 0.999], 1.0),
+                     ([rng.uniform(1e-5, 0.5)], rng.choice([1, 0.5, 3.0])), ([rng.uniform(0.5, 1 - 1e-5), 0.5], 1), ([7e-4, 0.9993], 0.7)]:
+        mc_model.marginal_icdf(ps_, 1, pf_, random_state=1)
+        mc_cases.append((ps_, pf_, mc_seen[-1]))
+    items.append(("mc_size", PRELUDE + "Eval vm_compute in [%s].\n" % "; ".join(
+        "fmc_size %s %s" % (fl_list(ps_), fl(float(pf_))) for ps_, pf_, _ in mc_cases)))
     outs = ctx.coq_eval_many(items, jobs=12)
+    mc_out = outs.pop()
+    items.pop()
+    nmc_ok = 0
+    if mc_out is not None:
+        for got, (ps_, pf_, n_) in zip(vlib.parse_term(mc_out[0]), mc_cases):
+            if vlib.unsome(got) == n_:
+                nmc_ok += 1
+            else:
+                ctx.mismatch("marginal_icdf sample size p=%r precision_factor=%r" % (ps_, pf_), "implementation draws %r rows, model %r" % (n_, got))
     codes_seen = {}
     suspects = []
     ncmp = nexact = 0
@@ -804,10 +1014,12 @@ def run(ctx):
                 nexact += 1
     ctx.cov["programs"] = 4
     ctx.notes["correspondence"] = {"comparisons": ncmp, "bit_exact": nexact, "codes": {str(k): v for k, v in sorted(codes_seen.items())},
-                                   "permutations_checked": len(perms)}
+                                   "permutations_checked": len(perms),
+                                   "marginal_icdf_sample_sizes_agree": "%d/%d" % (nmc_ok, len(mc_cases))}
     for sp in specs[:2]:
         ctx.sample({"spec": sp})
 
+    marks.append(("correspondence", _t.time()))
     # ---- search
     found = {}
 
@@ -848,6 +1060,7 @@ def run(ctx):
         irows = make_rows(rng, sp, 2, integers=True)
         nint += 1
         report(o_int_pdf(sp, irows, model), {"oracle": "int_pdf", "spec": sp, "rows": irows})
+    marks.append(("suspects+product", _t.time()))
     # (2b) what the integrands hand to pdf and over which range each model variable runs (probing stub, any dimension)
     nsem = 0
     for sp in specs:
@@ -869,6 +1082,7 @@ def run(ctx):
                 report(o_integrand_semantics(sp, meth, dim, arg, seed, True),
                        {"oracle": "integrand", "spec": sp, "method": meth, "dim": dim, "arg": arg, "seed": seed, "int_input": True})
     ctx.cov["evaluations"] += nsem
+    marks.append(("semantics", _t.time()))
     # (2c) several points in one call: non-sorted order, a repeated point -- same as one at a time
     nrows = 0
     for sp in specs[:ctx.n(60, 600)]:
@@ -888,6 +1102,7 @@ def run(ctx):
                 vals, o = shrink_rows(lambda v: o_rows_each_alone(sp, meth, dim, v, seed), xs)
                 report(o, {"oracle": "rows", "spec": sp, "method": meth, "dim": dim, "vals": vals, "seed": seed})
     ctx.cov["evaluations"] += nrows
+    marks.append(("rows", _t.time()))
     # (2d) histories: marginal_icdf of a conditional variable before / after the model is changed (in place, by re-fitting)
     nhist = 0
     for k in range(ctx.n(2, 12)):
@@ -902,13 +1117,53 @@ def run(ctx):
                                                   "marginal_icdf history raised %s: %s" % (type(e).__name__, str(e)[:200]))
             report(o, {"oracle": "history", "spec": sa, "spec_b": sb, "mode": mode, "seed": seed})
     ctx.cov["evaluations"] += nhist
+    marks.append(("histories", _t.time()))
+    # (2e) edge of the support, non-finite points
+    nedge = 0
+    for sp in specs[:ctx.n(70, 700)]:
+        base = make_rows(rng, sp, 1)[0]
+        nedge += 1
+        report(o_edge_rows(sp, base), {"oracle": "edge_rows", "spec": sp, "base": base})
+    marks.append(("edge", _t.time()))
+    # (2f) marginal_icdf with random_state on conditional dimensions of 2-D .. 4-D chains
+    nicdf = 0
+    cond_models = [sp for sp in specs if any(d["cond"] is not None for d in sp["dims"])]
+    pick = cond_models[:ctx.n(3, 20)] + [sp for sp in cond_models if len(sp["dims"]) >= 3 and M.structure(sp)[2] == 1][:ctx.n(2, 10)] + \
+        [sp for sp in cond_models if len(sp["dims"]) == 4][:ctx.n(1, 6)]
+    for k, sp in enumerate(pick):
+        dims = [i for i, d in enumerate(sp["dims"]) if d["cond"] is not None]
+        dim = dims[-1] if k % 2 == 0 else rng.choice(dims)
+        seed = rng.randrange(2 ** 31)
+        ps_, pf_ = rng.choice([([0.1, 0.9], 1), ([0.5], 0.5), ([2e-3, 0.7], 1.0), ([0.25, 0.5, 0.75], 2)])
+        nicdf += 2
+        report(o_icdf_seed(sp, dim, seed, ps_, pf_), {"oracle": "icdf_seed", "spec": sp, "dim": dim, "seed": seed, "ps": list(ps_), "pf": pf_})
+        report(o_icdf_nd(sp, dim, seed), {"oracle": "icdf_nd", "spec": sp, "dim": dim, "seed": seed})
+    marks.append(("icdf", _t.time()))
+    # (2g) every predefined model, fitted to a benchmark data set
+    for name in M.PREDEFINED:
+        seed = rng.randrange(2 ** 31)
+        psp = M.predefined_spec(name)
+        report(o_predefined(name, seed), {"oracle": "predefined", "name": name, "seed": seed})
+        m_, _tr = M.predefined_parts(name)
+        row = [float(v) for v in np.asarray(m_.draw_sample(1, random_state=seed))[0]]
+        rows5 = sorted(np.asarray(m_.draw_sample(4, random_state=seed + 1)).tolist())
+        rows5 = [rows5[1], rows5[2], rows5[3], rows5[0], rows5[2]]
+        for meth, dim, arg in [("cdf", None, row), ("marginal_pdf", 1, row[1]), ("marginal_cdf", 1, row[1]), ("marginal_pdf", 0, row[0]), ("marginal_cdf", 0, row[0])]:
+            s2 = rng.randrange(2 ** 31)
+            report(o_integrand_semantics(psp, meth, dim, arg, s2), {"oracle": "integrand", "spec": psp, "method": meth, "dim": dim, "arg": arg, "seed": s2})
+            vals = rows5 if meth == "cdf" else [r[dim] for r in rows5]
+            report(o_rows_each_alone(psp, meth, dim, vals, s2), {"oracle": "rows", "spec": psp, "method": meth, "dim": dim, "vals": vals, "seed": s2})
+            nedge += 2
+    ctx.cov["evaluations"] += nedge + nicdf
+    ctx.notes["scalar_x_for_marginals (outside the documented 1-D domain, recorded only)"] = scalar_notes(simple_2d_spec())
+    marks.append(("predefined", _t.time()))
     # minimal restatement of the dtype clause (the documented example shape: model.pdf([3, 7]))
     s0 = simple_2d_spec()
     report(o_int_pdf(s0, [[3.0, 7.0]]), {"oracle": "int_pdf", "spec": s0, "rows": [[3.0, 7.0]]})
     # (3) real nquad on 2-D models with a conditional second variable (slow: a handful, inside a time budget)
     import time
     t_real = time.time()
-    budget = ctx.n(35, 600)
+    budget = ctx.n(50, 600)
     left = lambda: time.time() - t_real < budget
     two = [sp for sp in specs if M.structure(sp) == (None, 0)]
     nreal = ctx.n(3, 25)
@@ -929,14 +1184,23 @@ def run(ctx):
             continue
         report(o_mass_2d(sp, limited(sp, ctx.n(10, 60))), {"oracle": "mass_2d", "spec": sp})
     for sp in two[-ctx.n(1, 5):]:
-        if not left():
-            skipped += 1
-            continue
         seed = rng.randrange(2 ** 31)
         o, worst = o_icdf_2d(ctx, sp, seed)
         worst_icdf = worst if worst_icdf is None else max(worst_icdf, worst or 0)
         report(o, {"oracle": "icdf_2d", "spec": sp, "seed": seed})
-    ctx.notes["search"] = {"product_oracle_models": nprod, "int_vs_float_models": nint, "integrand_semantics_calls": nsem, "multi_point_calls_vs_one_at_a_time": nrows, "marginal_icdf_histories": nhist, "real_nquad_2d_models": nquad_checked, "real_nquad_skipped_for_time": skipped, "unjudged_slow_or_saturated_nquad_calls": unjudged["slow_nquad"],
+    base0 = [1.5, 4.0]
+    if left():
+        report(o_edge_integrals_2d(s0, base0, limited(s0, 15)), {"oracle": "edge_integrals", "spec": s0, "base": base0})
+    pre_names = sorted(M.PREDEFINED)
+    for k in range(ctx.n(2, 6)):
+        name = pre_names[(ctx.seed + k) % len(pre_names)]
+        if left():
+            sd = rng.randrange(2 ** 31)
+            report(o_predefined(name, sd, ctx.n(10, 60)), {"oracle": "predefined", "name": name, "seed": sd, "real_seconds": ctx.n(10, 60)})
+    marks.append(("real_nquad", _t.time()))
+    ctx.notes["seconds_per_stage"] = {b[0]: round(b[1] - a[1], 1) for a, b in zip(marks, marks[1:])}
+    ctx.notes["search"] = {"product_oracle_models": nprod, "int_vs_float_models": nint, "integrand_semantics_calls": nsem, "multi_point_calls_vs_one_at_a_time": nrows, "marginal_icdf_histories": nhist, "edge_and_predefined_calls": nedge, "marginal_icdf_seed_and_ndim_checks": nicdf,
+                           "predefined_models": sorted(M.PREDEFINED), "real_nquad_2d_models": nquad_checked, "real_nquad_skipped_for_time": skipped, "unjudged_slow_or_saturated_nquad_calls": unjudged["slow_nquad"],
                            "marginal_icdf_worst_|F(x_p)-p|": worst_icdf,
                            "3-D real nquad": "not run (one call takes minutes); 3-D/4-D integrands are checked through the probing stub"}
     ctx.cov["rule"] = ("random 2-D/3-D (a few 4-D) hierarchical models over Weibull / log-normal / log-normal(norm-fit) / exponentiated Weibull / "
